@@ -49,7 +49,7 @@ UD_FIELDS = {"user_data.layer", "user_data.cel", "user_data.tag", "user_data.sli
 FIELDS = {
     "C01": STRUCT_FIELDS | {"load_result_err"},
     "C02": {"frame.image", "frames_complete", "frame.uncovered_pixels_transparent"},
-    "C06": {"cel.image", "cel.facts", "cels_complete"},
+    "C06": {"cel.image", "cel.facts", "cels_complete", "cel.outside_rect_transparent"},
     "C07": {"variant_result_differs", "variant_observation_differs"},
     "C08": TILE_FIELDS | {"tilemap.image_is_cel_image"},
     "C09": {"parents", "visible", "frame.uncovered_pixels_transparent", "forest_sample", "forest_layers"},
@@ -91,7 +91,11 @@ def relevant_sig(pid, sig, fields=None):
         keep = [f for f in fs if f in allowed]
         return ("observation:" + ",".join(keep)) if keep else None
     if kind == "usable":
-        return sig if "usable" in allowed else None
+        if "usable" in allowed:
+            return sig
+        fs = [f for f in sig.split(":")[1].split(",") if f]
+        keep = [f for f in fs if f in allowed]
+        return ("usable:" + ",".join(keep)) if keep else None
     if kind == "load_result":
         # panics/aborts at load time concern C04 (aborts also C12); a refusal of a well-formed file or an
         # accepted must-fail file concerns the properties that list load_result
@@ -699,7 +703,7 @@ def single_extra(rep, work, tier, seed, b):
     """Sprites with one or two layers (image or tilemap, any blend mode / opacity, cels hanging over every edge): frames with exactly
     one contributing layer must equal that layer's cel image, whatever the layer's mode, opacity, kind or position."""
     cases = work.path("g3single.ndjson")
-    gen(b, cases, "single", seed + 55, 300 if tier == "quick" else 6000)
+    gen(b, cases, "single", seed + 55, 600 if tier == "quick" else 6000)
     res = stage_cases(rep, work, b, cases, "g3-single")
     need_ok(rep, res, "g3-single", 0.95)
 
@@ -709,6 +713,24 @@ def both_extras(*fs):
         for g in fs:
             g(rep, work, tier, seed, b)
     return f
+
+
+CEL_SIZE_CLASSES = {"zlib_cel_declares_less", "zlib_cel_declares_fewer_rows", "zlib_cel_declares_more", "zlib_cel_declares_much_more"}
+
+
+def celsize_extra(rep, work, tier, seed, b):
+    """Image cels whose declared size disagrees with their (compressed) data - out of contract, the library accepts surplus data:
+    if such a sprite loads, every cel image must still be transparent outside the rectangle the cel declares."""
+    hosts = work.path("celsize-hosts.ndjson")
+    gen(b, hosts, "cel", seed + 57, 80 if tier == "quick" else 1500)
+    inc = work.path("celsize.ndjson")
+    with open(inc, "w") as f:
+        for line in open(hosts):
+            c = json.loads(line)
+            for name, q in inconsistencies(c["prog"]):
+                if name in CEL_SIZE_CLASSES:
+                    f.write(json.dumps({"id": f"{c['id']}|{name}", "mode": "full", "meta": {"gen": "g5-inconsistency", "class": name}, "prog": q}) + "\n")
+    stage_cases(rep, work, b, inc, "cel-size-inconsistencies", env={"ASEVER_ALLOC_CAP": ALLOC_CAP})
 
 
 def g3_check(pid, profile, nq, nt, rule, extra=None):
@@ -735,17 +757,17 @@ def corpus_cases():
 
 
 CHECKS.update({
-    "C02": (g3_check("C02", "render", 300, 6000, extra=both_extras(bigcel_extra, bigmap_extra), rule=
+    "C02": (g3_check("C02", "render", 600, 6000, extra=both_extras(bigcel_extra, bigmap_extra), rule=
                      "random/boundary sprites (canvas <= 6x6, <= 5 layers, all 19 modes, opacities, hidden layers/groups, linked and tilemap cels, "
                      "offsets incl. i16 extremes); every pixel of every frame image recomputed by TLC from AseRender.FrameImage"), "model_checking"),
-    "C06": (g3_check("C06", "cel", 400, 8000, extra=bigcel_extra, rule=
+    "C06": (g3_check("C06", "cel", 800, 8000, extra=both_extras(bigcel_extra, celsize_extra), rule=
                      "random/boundary sprites in the three pixel formats (sparse palettes, alpha < 255, all transparent-index positions, background "
                      "flag, raw/zlib/stored storage, links); every cel image and cel fact recomputed by TLC (AseRender.CelImage)"), "model_checking"),
-    "C08": (g3_check("C08", "tile", 400, 8000, extra=both_extras(huge_extra, bigmap_extra), rule=
+    "C08": (g3_check("C08", "tile", 800, 8000, extra=both_extras(huge_extra, bigmap_extra), rule=
                      "random sprites with tilesets (tile sizes 1..3, counts 1..4, three formats) and tilemap cels at tile-aligned offsets incl. "
                      "off-canvas; tile lookups on a grid incl. far coordinates, tilemap image, tile/tileset images recomputed by TLC; "
                      "plus canvases and tile sizes up to the format maximum (dimension laws and lookups only)"), "model_checking"),
-    "C19": (g3_check("C19", "default", 400, 8000, extra=both_extras(single_extra, bigmap_extra), rule=
+    "C19": (g3_check("C19", "default", 600, 8000, extra=both_extras(single_extra, bigmap_extra), rule=
                      "random sprites with non-square frame x layer counts; the three cel routes, single-visible-layer frames and tilemap images "
                      "compared by TLC"), "model_checking"),
 })
@@ -870,7 +892,7 @@ CHECKS.update({"C03": (c03, "exploration"), "C17": (c17, "model_checking")})
 def c07(rep, work, tier, seed):
     b = build("dev")
     cases = work.path("g3v.ndjson")
-    n, v = (120, 12) if tier == "quick" else (2500, 24)
+    n, v = (120, 13) if tier == "quick" else (2500, 26)
     gen(b, cases, "default", seed, n, variants=v)
     res = batched_stage(rep, work, b, cases, "g3-variants", batch=20000)
     need_ok(rep, res, "g3-variants", 0.95)
@@ -1043,6 +1065,11 @@ def c13(rep, work, tier, seed):
                 c = json.loads(line)
                 for name, q in last_chunk_variants(c["prog"], big=(hp == hosts and c["id"].endswith("-0"))):
                     f.write(json.dumps({"id": f"{c['id']}|last={name}", "prog": q, "mode": "light", "meta": {"gen": "g3-last-chunk", "last": name}}) + "\n")
+    # large files (chunk bodies far beyond 64 KiB): cut positions sampled around every chunk start, every multiple of 64 KiB, both ends
+    bigc = work.path("cutbig.ndjson")
+    gen(b, bigc, "bigcel", seed + 6, 2 if tier == "quick" else 10)
+    with open(cases, "a") as f:
+        f.write(open(bigc).read())
     res, n = driver_stage(rep, work, b, "cuts", cases, "cuts", [], kinds={"cut_full_file_fails", "cut_prefix_loaded"})
     rep.cov["traces_validated_against_impl"] += res["outcomes"][0]
     rep.cov["evaluations"] += res["outcomes"][1]
@@ -1232,7 +1259,34 @@ def inconsistencies(prog):
         c.update(**kw)
     mk("zlib_cel_declares_more", lambda q: upd(q, img, ctype=2, w=first(q, img)["w"] + 1) if first(q, img) else False)
     mk("zlib_cel_declares_much_more", lambda q: upd(q, img, ctype=2, w=300, h=200) if first(q, img) else False)
+    # duplicates: a later chunk for the same id / the same role (the specification says which one counts)
+    def dup_tileset(q):
+        ch = q["frames"][0]["chunks"] if q["frames"] else []
+        i = next((i for i, c in enumerate(ch) if c["k"] == "tileset"), None)
+        if i is None:
+            return False
+        d = copy.deepcopy(ch[i]); d["name"] = [100, 117, 112]; d["base"] = 7
+        ch.insert(i + 1, d)
+    mk("duplicate_tileset_id", dup_tileset)
+    def dup_tags(q):
+        if not q["frames"] or not any(c["k"] == "tags" for c in q["frames"][0]["chunks"]):
+            return False
+        q["frames"][0]["chunks"].append({"k": "tags", "tags": [{"from": 0, "to": 0, "dir": 1, "repeat": 2, "name": [50]}]})
+    mk("duplicate_tags_chunk", dup_tags)
+    def dup_ext(q):
+        for fr in q["frames"]:
+            for i, c in enumerate(fr["chunks"]):
+                if c["k"] == "extfiles" and c["entries"]:
+                    d = copy.deepcopy(c)
+                    for e in d["entries"]:
+                        e["name"] = [120] + list(e["name"])
+                    fr["chunks"].insert(i + 1, d)
+                    return
+        return False
+    mk("duplicate_extfile_ids", dup_ext)
     mk("zlib_cel_declares_less", lambda q: upd(q, lambda c: img(c) and c["w"] > 1, ctype=2, w=1))
+    for i, c0 in enumerate(cels(prog, lambda c: img(c) and c["h"] > 1)[:6]):
+        mk("zlib_cel_declares_fewer_rows", lambda q, i=i: cels(q, lambda c: img(c) and c["h"] > 1)[i].update(ctype=2, h=cels(q, lambda c: img(c) and c["h"] > 1)[i]["h"] - 1))
     mk("raw_cel_declares_zero", lambda q: upd(q, img, w=0))
     mk("tile_id_out_of_range", lambda q: (first(q, lambda c: tm(c) and c["tiles"]) or {"tiles": [0]})["tiles"].__setitem__(0, 1000) if first(q, lambda c: tm(c) and c["tiles"]) else False)
     mk("tilemap_fewer_tiles", lambda q: upd(q, tm, w=5, h=5))
@@ -1379,6 +1433,12 @@ def fault_inputs(rep, work, b, tier, seed, mode, nseeds, nhavoc, classes=None, w
     faults(b, seeds, fp, "framepairs", seed, mode=mode)
     with open(ff, "a") as f:
         f.write(open(fp).read())
+    many = work.path("seeds3.ndjson")
+    gen(b, many, "struct", seed + 2, max(4, nseeds))
+    kw = work.path("kindwide.ndjson")
+    faults(b, many, kw, "kindwide", seed, mode=mode)
+    with open(ff, "a") as f:
+        f.write(open(kw).read())
     allseeds = work.path("allseeds.ndjson")
     with open(allseeds, "w") as f:
         f.write(open(seeds).read())
